@@ -172,3 +172,86 @@ Proof.
   rewrite He in I1. destruct (unpack lines o2) as [l c].
   destruct I1 as [_ [_ E1]]. destruct I2 as [_ [_ E2]]. lia.
 Qed.
+
+(* ---------- file lookup in a file set (SourceFileSet.file / searchFiles) ---------- *)
+
+(* the ranges [base, base+size] of the files of a set, as AddFile lays them out: sizes are not
+   negative and a later file starts after the end (EOF position included) of every earlier one *)
+Definition files_ok (files : list (Z * Z)) : Prop :=
+  (forall i b s, nth_error files i = Some (b, s) -> 0 <= s) /\
+  (forall i j bi si bj sj, (i < j)%nat -> nth_error files i = Some (bi, si) ->
+     nth_error files j = Some (bj, sj) -> bi + si < bj).
+
+Lemma search_files_count files p i :
+  search_files files p i = i + Z.of_nat (count_le (map fst files) p) - 1.
+Proof.
+  revert i. induction files as [|[b s] r IH]; intros i; simpl; [lia|].
+  destruct (Z.ltb_spec p b) as [Hlt|Hge], (Z.leb_spec b p) as [Hle|Hgt]; try lia.
+  rewrite IH. lia.
+Qed.
+
+Lemma nth_fst_of_nth_error (files : list (Z * Z)) k b s :
+  nth_error files k = Some (b, s) -> nth k (map fst files) 0 = b.
+Proof.
+  intros H. apply (map_nth_error fst) in H. simpl in H.
+  apply nth_error_nth with (d := 0) in H. exact H.
+Qed.
+
+Lemma nth_error_of_lt (files : list (Z * Z)) k :
+  (k < length files)%nat -> exists b s, nth_error files k = Some (b, s).
+Proof.
+  intros H. destruct (nth_error files k) as [[b s]|] eqn:E; [eauto|].
+  apply nth_error_None in E. lia.
+Qed.
+
+Lemma files_ok_sorted files : files_ok files -> sorted (map fst files).
+Proof.
+  intros [Hsz Hno] p q Hpq. rewrite map_length in Hpq.
+  destruct (nth_error_of_lt files p ltac:(lia)) as [bp [sp Ep]].
+  destruct (nth_error_of_lt files q ltac:(lia)) as [bq [sq Eq]].
+  rewrite (nth_fst_of_nth_error _ _ _ _ Ep), (nth_fst_of_nth_error _ _ _ _ Eq).
+  pose proof (Hsz _ _ _ Ep). pose proof (Hno p q _ _ _ _ ltac:(lia) Ep Eq). lia.
+Qed.
+
+(* the lookup returns exactly the file whose range contains the position, and no file when no
+   range does; the shortcut through LastFile returns a file whose range contains the position,
+   hence (ranges being disjoint) the same one *)
+Theorem file_of_spec files p k :
+  files_ok files ->
+  (file_of files p = Some k <-> exists b s, nth_error files k = Some (b, s) /\ b <= p <= b + s).
+Proof.
+  intros Hok. pose proof (files_ok_sorted files Hok) as Hs.
+  destruct (count_le_spec (map fst files) p Hs) as [Hle Hgt].
+  pose proof (count_le_bound (map fst files) p) as Hb. rewrite map_length in Hb, Hgt.
+  unfold file_of. rewrite search_files_count.
+  set (c := count_le (map fst files) p) in *.
+  split.
+  - destruct (Z.ltb_spec (0 + Z.of_nat c - 1) 0) as [Hneg|Hpos]; [discriminate|].
+    replace (Z.to_nat (0 + Z.of_nat c - 1)) with (c - 1)%nat by lia.
+    destruct (nth_error files (c - 1)) as [[b s]|] eqn:E; [|discriminate].
+    destruct (Z.leb_spec p (b + s)) as [Hin|Hout]; [|discriminate].
+    intros H. injection H as <-. exists b, s. split; [exact E|].
+    specialize (Hle (c - 1)%nat ltac:(lia)). rewrite (nth_fst_of_nth_error _ _ _ _ E) in Hle. lia.
+  - intros [b [s [E [Hlo Hhi]]]].
+    assert (Hk: (k < length files)%nat) by (apply nth_error_Some; rewrite E; discriminate).
+    assert (Hc: c = S k).
+    { destruct (Nat.lt_ge_cases k c) as [Hkc|Hkc].
+      - destruct (Nat.eq_dec c (S k)) as [|Hne]; [assumption|exfalso].
+        destruct (nth_error_of_lt files (S k) ltac:(lia)) as [b' [s' E']].
+        specialize (Hle (S k) ltac:(lia)). rewrite (nth_fst_of_nth_error _ _ _ _ E') in Hle.
+        destruct Hok as [_ Hno]. pose proof (Hno k (S k) _ _ _ _ ltac:(lia) E E'). lia.
+      - exfalso. specialize (Hgt k ltac:(lia)). rewrite (nth_fst_of_nth_error _ _ _ _ E) in Hgt. lia. }
+    destruct (Z.ltb_spec (0 + Z.of_nat c - 1) 0) as [Hneg|Hpos]; [lia|].
+    replace (Z.to_nat (0 + Z.of_nat c - 1)) with k by lia.
+    rewrite E. destruct (Z.leb_spec p (b + s)); [reflexivity|lia].
+Qed.
+
+Corollary file_of_unique files p k1 k2 b1 s1 b2 s2 :
+  files_ok files -> nth_error files k1 = Some (b1, s1) -> nth_error files k2 = Some (b2, s2) ->
+  b1 <= p <= b1 + s1 -> b2 <= p <= b2 + s2 -> k1 = k2.
+Proof.
+  intros Hok E1 E2 H1 H2.
+  assert (A1: file_of files p = Some k1) by (apply file_of_spec; eauto).
+  assert (A2: file_of files p = Some k2) by (apply file_of_spec; eauto).
+  congruence.
+Qed.
